@@ -426,7 +426,8 @@ class _FuncEval:
             self.s.exits.append(Exit("ret", v, st.cond, node))
             return self.s
         st = State(env, ())
-        out = self.block(node.body, st)
+        body_ = self._eager_generator_body(f) or node.body
+        out = self.block(body_, st)
         if out is not None:
             self.s.exits.append(Exit("ret", ("const", None), out.cond, node, tuple(self.loop_stack)))
             self.s.final_env = dict(out.env.vars)
@@ -452,6 +453,99 @@ class _FuncEval:
             st = self.stmt(stmts[i], st)
             i += 1
         return st
+
+    EAGER_CONSUMERS = ("join", "list", "tuple", "sorted", "sum", "max", "min", "set", "frozenset")
+
+    def _eager_generator_body(self, f) -> Optional[list]:
+        """A generator function all of whose calls (in the whole package) are the sole argument of an eager, effect-free consumer
+        (`sep.join(g(..))`, `list(g(..))`, `tuple`, `sorted`, `sum`, `max`, `min`, `set`, `frozenset`) is evaluated as the function
+        that builds and returns the list of yielded values:  `acc = []`; every `yield V` -> `acc.append(V)`, `yield from X` ->
+        `acc.extend(X)`, bare `return` -> `return acc`; `return acc` at the end.  Exact for those call sites: the consumer drains
+        the generator completely before anything else happens, so the body runs to its end (or to its first exception) in one go,
+        exactly as the list-building function does.  Any other use (a for loop, any/all/next, a stored generator object, a
+        `yield` expression whose value is used, `return V`) leaves the function outside the analysed subset."""
+        import copy
+        node = f.node
+        if isinstance(node, ast.Lambda):
+            return None
+        key = ("gen", id(node))
+        if key in self._desugared:
+            return self._desugared[key] or None
+
+        def own(n):  # nodes of this function, not of nested defs / lambdas
+            todo = list(ast.iter_child_nodes(n))
+            while todo:
+                x = todo.pop()
+                yield x
+                if not isinstance(x, (ast.FunctionDef, ast.AsyncFunctionDef, ast.Lambda, ast.ClassDef)):
+                    todo.extend(ast.iter_child_nodes(x))
+        ys = [n for n in own(node) if isinstance(n, (ast.Yield, ast.YieldFrom))]
+        if not ys:
+            self._desugared[key] = []
+            return None
+        ok = not isinstance(node, ast.AsyncFunctionDef)
+        # every yield is an expression statement; every return is bare
+        stmt_yields = {id(n.value) for n in own(node) if isinstance(n, ast.Expr) and isinstance(n.value, (ast.Yield, ast.YieldFrom))}
+        ok = ok and all(id(y) in stmt_yields for y in ys) and all(y.value is not None for y in ys)
+        ok = ok and not any(isinstance(n, ast.Return) and n.value is not None for n in own(node))
+        # every call site in the package is the sole argument of an eager consumer
+        if ok:
+            n_sites = 0
+            for fi in list(self.prog.functions.values()) + list(self.prog.lambdas.values()):
+                parents = {}
+                for p_ in ast.walk(fi.node):
+                    for c_ in ast.iter_child_nodes(p_):
+                        parents[id(c_)] = p_
+                for n in ast.walk(fi.node):
+                    if isinstance(n, (ast.Name, ast.Attribute)) and (n.id if isinstance(n, ast.Name) else n.attr) == f.name:
+                        call = parents.get(id(n))
+                        if not (isinstance(call, ast.Call) and call.func is n):
+                            ok = False
+                            continue
+                        outer = parents.get(id(call))
+                        fn_ = outer.func if isinstance(outer, ast.Call) else None
+                        nm = fn_.id if isinstance(fn_, ast.Name) else fn_.attr if isinstance(fn_, ast.Attribute) else None
+                        if not (isinstance(outer, ast.Call) and nm in self.EAGER_CONSUMERS and len(outer.args) == 1 and outer.args[0] is call
+                                and all(k_.arg in ("key", "reverse", "default", "start") for k_ in outer.keywords)):
+                            ok = False
+                        n_sites += 1
+            for m_ in self.prog.modules.values():  # a use at module level (outside any function) is not examined: refuse
+                for n in ast.walk(m_.tree):
+                    if isinstance(n, ast.Name) and n.id == f.name and isinstance(n.ctx, ast.Load):
+                        if not any(n is x for fi in self.prog.functions.values() for x in ast.walk(fi.node)):
+                            ok = False
+            ok = ok and n_sites > 0
+        if not ok:
+            self._desugared[key] = []
+            return None
+        acc = f"_yielded_{getattr(node, 'lineno', 0)}"
+
+        class R(ast.NodeTransformer):
+            def visit_FunctionDef(self, n):
+                return n
+
+            visit_AsyncFunctionDef = visit_Lambda = visit_ClassDef = visit_FunctionDef
+
+            def visit_Expr(self, n):
+                v = n.value
+                if isinstance(v, ast.Yield):
+                    c = ast.Call(func=ast.Attribute(value=ast.Name(id=acc, ctx=ast.Load()), attr="append", ctx=ast.Load()), args=[v.value], keywords=[])
+                    return ast.copy_location(ast.Expr(value=c), n)
+                if isinstance(v, ast.YieldFrom):
+                    c = ast.Call(func=ast.Attribute(value=ast.Name(id=acc, ctx=ast.Load()), attr="extend", ctx=ast.Load()), args=[v.value], keywords=[])
+                    return ast.copy_location(ast.Expr(value=c), n)
+                return n
+
+            def visit_Return(self, n):
+                return ast.copy_location(ast.Return(value=ast.Name(id=acc, ctx=ast.Load())), n)
+        body = [R().visit(copy.deepcopy(b)) for b in node.body]
+        init = ast.Assign(targets=[ast.Name(id=acc, ctx=ast.Store())], value=ast.List(elts=[], ctx=ast.Load()))
+        fin = ast.Return(value=ast.Name(id=acc, ctx=ast.Load()))
+        out = [ast.copy_location(init, node)] + body + [ast.copy_location(fin, node.body[-1])]
+        for n in out:
+            ast.fix_missing_locations(n)
+        self._desugared[key] = out
+        return out
 
     def _in_deep_root(self) -> bool:
         root = self
@@ -1376,7 +1470,59 @@ class _FuncEval:
                                      tuple(self.try_stack)))
 
     # ---- if
+    def _option_lookup_if(self, s: ast.If, st: State) -> Optional[ast.If]:
+        """`if (x := D.get(k)) is not None: B else: E`  ==  `if k in D: x = D[k]; B  else: x = None; E`  when no value of D is None
+        (D evaluates to a dict display / comprehension whose values are tuples, containers, strings or non-None constants) and D
+        and k are plain names / attribute chains (evaluating them twice is the same as once)."""
+        t = s.test
+        if not (isinstance(t, ast.Compare) and len(t.ops) == 1 and isinstance(t.ops[0], (ast.Is, ast.IsNot)) and
+                isinstance(t.comparators[0], ast.Constant) and t.comparators[0].value is None and isinstance(t.left, ast.NamedExpr)):
+            return None
+        ne = t.left
+        call = ne.value
+        if not (isinstance(call, ast.Call) and isinstance(call.func, ast.Attribute) and call.func.attr == "get" and len(call.args) == 1
+                and not call.keywords and isinstance(ne.target, ast.Name)):
+            return None
+
+        def plain(e_):
+            return isinstance(e_, ast.Name) or (isinstance(e_, ast.Attribute) and plain(e_.value))
+        D, k = call.func.value, call.args[0]
+        if not (plain(D) and plain(k)):
+            return None
+        key = ("optget", id(s))
+        if key in self._desugared:
+            return self._desugared[key] or None
+        dt = self.expr(D, st)
+
+        def non_none(v):
+            return v[0] in ("tuple", "list", "dict", "set", "fstr") or (v[0] == "const" and v[1] is not None) or \
+                (v[0] == "call" and v[1][0] in ("class", "clsparam"))
+        ok = False
+        if dt[0] == "dict":
+            ok = bool(dt[1]) and all(non_none(v) for _, v in dt[1])
+        elif dt[0] == "comp" and dt[1] == "dict" and dt[2][0] == "tuple" and len(dt[2][1]) == 2:
+            ok = non_none(dt[2][1][1])
+        if not ok:
+            self._desugared[key] = []
+            return None
+        import copy
+        x = ne.target.id
+        hit = ast.Assign(targets=[ast.Name(id=x, ctx=ast.Store())], value=ast.Subscript(value=copy.deepcopy(D), slice=copy.deepcopy(k), ctx=ast.Load()))
+        miss = ast.Assign(targets=[ast.Name(id=x, ctx=ast.Store())], value=ast.Constant(value=None))
+        some, none = (s.body, s.orelse) if isinstance(t.ops[0], ast.IsNot) else (s.orelse, s.body)
+        new = ast.If(test=ast.Compare(left=copy.deepcopy(k), ops=[ast.In()], comparators=[copy.deepcopy(D)]),
+                     body=[hit] + list(some), orelse=[miss] + list(none))
+        ast.copy_location(new, s)
+        for n_ in (hit, miss):
+            ast.copy_location(n_, s)
+        ast.fix_missing_locations(new)
+        self._desugared[key] = new
+        return new
+
     def if_(self, s: ast.If, st: State) -> Optional[State]:
+        alt = self._option_lookup_if(s, st)
+        if alt is not None:
+            s = alt
         c = self.expr(s.test, st)
         if c[0] == "const":
             return self.block(s.body if c[1] else s.orelse, st)
